@@ -7,6 +7,8 @@
   from `Gen.Txtar.*` by `⟨rfl⟩`, so a changed fact breaks exactly the theorems depending on it.
 -/
 import GIV.Lemmas.TxtarQuote
+import GIV.Lemmas.TxtarIdxLoop
+import GIV.Lemmas.TxtarIdxQuote
 
 namespace GIV.C14
 open GIV GIV.Txtar
@@ -101,5 +103,25 @@ theorem quote_refuses : ∀ d, (∃ e, quote d = .error e) ↔
 
 example : quote (lit "a") = .error .noFinalNewline := by decide +kernel
 example : quote [0xC0, 0x80, NL] = .error .notUTF8 := by decide +kernel
+
+/-! ### tie to the Go code: the index forms (`GIV.Model.TxtarIdx`, executed by the model driver) -/
+
+/-- The index-form `NeedsQuote` (via the offset-scanning `findFileMarker`) is `needsQuote`. -/
+theorem needsQuote_index_form_agrees : ∀ d, needsQuoteIdx d = needsQuote d :=
+  have : FLit := ⟨rfl, rfl⟩; have : FNLM := ⟨rfl⟩
+  needsQuoteIdx_eq
+
+example : needsQuoteIdx (lit "a\n-- x --") = some true := by decide +kernel
+example : needsQuoteIdx (lit "a\n --x --\n-- \n") = some false := by decide +kernel
+
+/-- The index-form `Quote` (the `range` loop as a fold over `(nd, prev)`) is `quote`. -/
+theorem quote_index_form_agrees : ∀ d, quoteIdx d = quote d := quoteIdx_eq
+
+example : quoteIdx (lit "a\n\nb\n") = .ok (lit ">a\n>\n>b\n") := by decide +kernel
+
+/-- The index-form `Unquote` (`bytes.Replace`, `bytes.TrimPrefix`) is `unquote`. -/
+theorem unquote_index_form_agrees : ∀ d, unquoteIdx d = unquote d := unquoteIdx_eq
+
+example : unquoteIdx (lit ">a\n>>b\n>\n") = .ok (lit "a\n>b\n\n") := by decide +kernel
 
 end GIV.C14
